@@ -6,8 +6,9 @@
 
   * nodes and hierarchy edges of the limited graph are exactly the flattened nodes / hierarchy edges of the full graph;
   * import edges: every flattened import edge of the full graph (ends distinct, not landing on a parent→child pair)
-    is an import edge of the limited graph; the converse holds iff no import is DANGLING (importee not a node of
-    the full graph) — a dangling import is invisible in the full graph but can reappear after truncation;
+    is an import edge of the limited graph, AND CONVERSELY: since the repair of `_initialise` (`skipImportEdge`: with
+    a limit the import edge is only attempted between KNOWN modules, `knownModules` = the nodes of the full graph) a
+    dangling import (importee not a node of the full graph) no longer reappears after truncation;
   * a flattened import edge lands on a parent→child pair exactly when the importer has as many components as the
     shifted limit and the importee lies at least two levels below it in the importer's own subtree.
 -/
@@ -132,27 +133,34 @@ theorem build_quotient (M : List Str) (R : List ImportRec) (L : Option Nat)
       ∃ u v, (u, v) ∈ (buildGraph M R none).hierPairs ∧ a = flattenNode L u ∧ b = flattenNode L v ∧ a ≠ b) ∧
     (∀ a b, (a, b) ∈ (buildGraph M R L).importPairs ↔
       a ≠ b ∧ ¬ hierPair a b ∧ a ∈ (buildGraph M R L).nodes ∧ b ∈ (buildGraph M R L).nodes ∧
-      ∃ i ∈ R, a = flattenNode L i.importer ∧ b = flattenNode L i.importee) ∧
+      ∃ i ∈ R, i.importee ∈ (buildGraph M R none).nodes ∧ a = flattenNode L i.importer ∧ b = flattenNode L i.importee) ∧
     (∀ a b, (a ≠ b ∧ ¬ hierPair a b ∧
         ∃ u v, (u, v) ∈ (buildGraph M R none).importPairs ∧ a = flattenNode L u ∧ b = flattenNode L v) →
       (a, b) ∈ (buildGraph M R L).importPairs) ∧
-    ((∀ i ∈ R, i.importee ∈ (buildGraph M R none).nodes) →
-      ∀ a b, (a, b) ∈ (buildGraph M R L).importPairs →
+    (∀ a b, (a, b) ∈ (buildGraph M R L).importPairs →
         ∃ u v, (u, v) ∈ (buildGraph M R none).importPairs ∧ a = flattenNode L u ∧ b = flattenNode L v) := by
   have hL : ∀ i ∈ R, NodeOf L M (flattenNode L i.importer) ∧ i.importeeParents = parentModules i.importee :=
     fun i hi => ⟨nodeOf_flatten L M _ (h0 i hi).1, (h0 i hi).2⟩
   obtain ⟨n1, t1, f1⟩ := buildGraph_char M R L hL
   obtain ⟨n0, t0, f0⟩ := buildGraph_char M R none h0
+  -- an import that is not skipped has its importee among the nodes of the full graph
+  have hkn : ∀ i ∈ R, skipImportEdge L (knownModules M) i = false → NodeOf L M (flattenNode L i.importee) →
+      NodeOf none M i.importee := by
+    intro i _ hsk hb
+    cases L with
+    | none => exact hb
+    | some k => exact (nodeOf_of_skip_false k M i hsk).2
   have himpsup : ∀ a b, (a ≠ b ∧ ¬ hierPair a b ∧
         ∃ u v, (u, v) ∈ (buildGraph M R none).importPairs ∧ a = flattenNode L u ∧ b = flattenNode L v) →
       (a, b) ∈ (buildGraph M R L).importPairs := by
     rintro a b ⟨hne, hnh, u, v, huv, rfl, rfl⟩
     rw [mem_importPairs] at huv ⊢
-    obtain ⟨-, -, Nu, Nv, i, hi, hiu, hiv⟩ := (f0 u v).1 huv
+    obtain ⟨-, -, Nu, Nv, i, hi, -, hiu, hiv⟩ := (f0 u v).1 huv
     have hiu' : i.importer = u := hiu
     have hiv' : i.importee = v := hiv
     subst hiu' hiv'
-    exact (f1 _ _).2 ⟨hnh, hne, nodeOf_flatten L M _ Nu, nodeOf_flatten L M _ Nv, i, hi, rfl, rfl⟩
+    exact (f1 _ _).2 ⟨hnh, hne, nodeOf_flatten L M _ Nu, nodeOf_flatten L M _ Nv, i, hi,
+      skip_false_of_nodeOf L M i Nu Nv, rfl, rfl⟩
   refine ⟨?_, ?_, ?_, himpsup, ?_⟩
   · intro s
     rw [n1]
@@ -177,16 +185,16 @@ theorem build_quotient (M : List Str) (R : List ImportRec) (L : Option Nat)
   · intro a b
     rw [mem_importPairs, f1, n1, n1]
     constructor
-    · rintro ⟨h1, h2, h3, h4, i, hi, rfl, rfl⟩
-      exact ⟨h2, h1, h3, h4, i, hi, rfl, rfl⟩
-    · rintro ⟨h1, h2, h3, h4, i, hi, rfl, rfl⟩
-      exact ⟨h2, h1, h3, h4, i, hi, rfl, rfl⟩
-  · intro hnd a b hab
+    · rintro ⟨h1, h2, h3, h4, i, hi, hsk, rfl, rfl⟩
+      exact ⟨h2, h1, h3, h4, i, hi, (n0 _).2 (hkn i hi hsk h4), rfl, rfl⟩
+    · rintro ⟨h1, h2, h3, h4, i, hi, hnode, rfl, rfl⟩
+      exact ⟨h2, h1, h3, h4, i, hi, skip_false_of_nodeOf L M i (h0 i hi).1 ((n0 _).1 hnode), rfl, rfl⟩
+  · intro a b hab
     rw [mem_importPairs] at hab
-    obtain ⟨hnh, hne, -, -, i, hi, rfl, rfl⟩ := (f1 a b).1 hab
+    obtain ⟨hnh, hne, -, hb, i, hi, hsk, rfl, rfl⟩ := (f1 a b).1 hab
     refine ⟨i.importer, i.importee, ?_, rfl, rfl⟩
     rw [mem_importPairs, f0]
-    refine ⟨?_, ?_, (h0 i hi).1, (n0 _).1 (hnd i hi), i, hi, rfl, rfl⟩
+    refine ⟨?_, ?_, (h0 i hi).1, hkn i hi hsk hb, i, hi, rfl, rfl, rfl⟩
     · intro hp
       exact hnh (hierPair_flatten L _ _ hp hne)
     · intro he
@@ -288,10 +296,10 @@ theorem scan_quotient_lemma (g g0 : PGraph Str)
     (∀ R, scanRetained mt base rootName mp entries o = .ok R →
       (∀ a b, (a, b) ∈ g.importPairs ↔
         a ≠ b ∧ isHierPair a b = false ∧ a ∈ g.nodes ∧ b ∈ g.nodes ∧
-        ∃ i ∈ R, a = flattenNode (shiftedLimit o mp) i.importer ∧ b = flattenNode (shiftedLimit o mp) i.importee) ∧
-      (danglingFree R g0 = true →
-        ∀ a b, (a, b) ∈ g.importPairs →
-          ∃ u v, (u, v) ∈ g0.importPairs ∧ a = flattenNode (shiftedLimit o mp) u ∧ b = flattenNode (shiftedLimit o mp) v)) := by
+        ∃ i ∈ R, i.importee ∈ g0.nodes ∧
+          a = flattenNode (shiftedLimit o mp) i.importer ∧ b = flattenNode (shiftedLimit o mp) i.importee)) ∧
+    (∀ a b, (a, b) ∈ g.importPairs →
+      ∃ u v, (u, v) ∈ g0.importPairs ∧ a = flattenNode (shiftedLimit o mp) u ∧ b = flattenNode (shiftedLimit o mp) v) := by
   obtain ⟨R, hR, rfl, rfl⟩ := scan_pair mt base rootName mp entries o g g0 hg hg0
   obtain ⟨q1, q2, q3, q4, q5⟩ := build_quotient (scanMods mt base rootName mp entries o R) R (shiftedLimit o mp)
     (scan_h0 mt base rootName mp entries o R hR)
@@ -299,7 +307,7 @@ theorem scan_quotient_lemma (g g0 : PGraph Str)
     intro a b
     rw [← isHierPair_iff]
     simp
-  refine ⟨q1, q2, ?_, ?_, ?_⟩
+  refine ⟨q1, q2, ?_, ?_, ?_, q5⟩
   · rintro a b ⟨h1, h2, h3⟩
     exact q4 a b ⟨h1, (hb a b).1 h2, h3⟩
   · intro a b hab
@@ -309,14 +317,8 @@ theorem scan_quotient_lemma (g g0 : PGraph Str)
     rw [hR] at hR'
     simp only [Except.ok.injEq] at hR'
     subst hR'
-    refine ⟨?_, ?_⟩
-    · intro a b
-      rw [q3, hb]
-    · intro hnd
-      apply q5
-      unfold danglingFree at hnd
-      simp only [List.all_eq_true, List.contains_iff_mem] at hnd
-      exact hnd
+    intro a b
+    rw [q3, hb]
 
 /-- import edges of the full graph: importer of a retained record, importee a node -/
 theorem full_import_facts (g0 : PGraph Str)
@@ -328,7 +330,7 @@ theorem full_import_facts (g0 : PGraph Str)
   subst hg0
   obtain ⟨n0, -, f0⟩ := buildGraph_char _ R none (scan_h0 mt base rootName mp entries o R hR)
   rw [mem_importPairs] at huv
-  obtain ⟨h1, -, -, h4, i, hi, h5, h6⟩ := (f0 u v).1 huv
+  obtain ⟨h1, -, -, h4, i, hi, -, h5, h6⟩ := (f0 u v).1 huv
   exact ⟨h1, (n0 v).2 h4, i, hi, h5, h6⟩
 
 theorem noDownward_of_leaf_lemma (g0 : PGraph Str)
